@@ -305,7 +305,7 @@ func extractColor(str string, state *ansiState, proc func(string, *ansiState) bo
 		proc(rest, state)
 	}
 	if len(offsets) > 0 {
-		if len(rest) > 0 && state != nil {
+		if state != nil {
 			// Update last offset
 			runeCount += utf8.RuneCountInString(rest)
 			(&offsets[len(offsets)-1]).offset[1] = int32(runeCount)
